@@ -49,6 +49,18 @@ def extract():
     mt = re.search(r"void\s+terminate\s*\(\s*\)\s*const\s*\{\s*terminate_\s*=\s*true\s*;\s*\}", ptc)
     cfg["ptc_eval_terminate_first"] = bool(me) and bool(mt)
     if not cfg["ptc_eval_terminate_first"]: notes["ptc_eval_terminate_first"] = "eval() starts with the terminate_ test: %s; terminate() only sets terminate_: %s" % (bool(me), bool(mt))
+    # pRRT: the three shared accesses of a worker are each one critical section (the atomic events of ParRrtModel.v), and the motion's
+    # parent is the node read in the first one
+    pr = strip_comments(read("src/ompl/geometric/planners/rrt/src/pRRT.cpp"))
+    m = re.search(r"void\s+ompl::geometric::pRRT::threadSolve\s*\(", pr)
+    body = pr[m.start():pr.find("ompl::base::PlannerStatus ompl::geometric::pRRT::solve", m.start())] if m else ""
+    c1 = re.search(r"nnLock_\.lock\(\)\s*;\s*Motion\s*\*\s*nmotion\s*=\s*nn_->nearest\(rmotion\)\s*;\s*nnLock_\.unlock\(\)\s*;", body)
+    c2 = re.search(r"motion->parent\s*=\s*nmotion\s*;\s*nnLock_\.lock\(\)\s*;\s*nn_->add\(motion\)\s*;\s*nnLock_\.unlock\(\)\s*;", body)
+    c3 = re.search(r"sol->lock\.lock\(\)\s*;\s*sol->approxdif\s*=\s*dist\s*;\s*sol->solution\s*=\s*motion\s*;\s*sol->lock\.unlock\(\)\s*;", body)
+    c4 = re.search(r"sol->lock\.lock\(\)\s*;\s*if\s*\(dist\s*<\s*sol->approxdif\)\s*\{\s*sol->approxdif\s*=\s*dist\s*;\s*sol->approxsol\s*=\s*motion\s*;\s*\}\s*sol->lock\.unlock\(\)\s*;", body)
+    writes = len(re.findall(r"nn_->(?:add|remove|clear)\(", body)), len(re.findall(r"sol->(?:solution|approxsol|approxdif)\s*=[^=]", body))
+    cfg["prrt_atomic_steps"] = bool(c1 and c2 and c3 and c4) and writes == (1, 4)
+    if not cfg["prrt_atomic_steps"]: notes["prrt_atomic_steps"] = "nearest locked: %s; parent + add locked: %s; solution locked: %s; approximate locked: %s; writes to the tree / solution record in threadSolve: %s" % (bool(c1), bool(c2), bool(c3), bool(c4), writes)
     pd = strip_comments(read("src/ompl/base/src/ProblemDefinition.cpp"))
     m = re.search(r"class\s+ProblemDefinition::PlannerSolutionSet\s*\{", pd)
     ok = False
@@ -94,7 +106,7 @@ def extract():
 
 def to_coq(cfg):
     b = lambda x: "true" if x else "false"
-    order = ["mv_counters_atomic", "mv_increments_rmw", "ptc_flags_atomic", "ptc_eval_terminate_first", "pdef_solutions_locked", "rng_seeds_locked", "spaces_registry_locked", "console_locked", "gnat_query_no_shared_scratch"]
+    order = ["mv_counters_atomic", "mv_increments_rmw", "ptc_flags_atomic", "ptc_eval_terminate_first", "prrt_atomic_steps", "pdef_solutions_locked", "rng_seeds_locked", "spaces_registry_locked", "console_locked", "gnat_query_no_shared_scratch"]
     return ("(* generated by lib/thread_config.py from %s — do not edit *)\nFrom Coq Require Import List Bool.\nFrom OmplV Require Import ThreadModel ThreadProofs.\n"
             "Definition current : config := mkCfg %s.\n"
             "Theorem current_ok : config_ok current = true.\nProof. reflexivity. Qed.\n"
